@@ -613,6 +613,49 @@ pub fn c16(thorough: bool, seed: u64) -> CheckOutput {
     );
     acc.merge(out);
 
+    // the unsafe memo-index bound is a 1-in-1000 event per call: many PRNG / byte states
+    let n_memo = if thorough { 2_000_000 } else { 200_000 };
+    let memo_acc = par_run(
+        n_memo,
+        Acc::new,
+        |i, acc| {
+            let mut rng = Rng::new(mix(seed ^ 0x3E30, i as u64));
+            let e = if i % 2 == 0 {
+                Ent::Prng(rng.next())
+            } else {
+                let mut b = vec![0u8; 8]; // gate double 0.0
+                b.extend(rng.bytes(8));
+                Ent::Bytes(b)
+            };
+            let uns = MemoIndexMutator::new(true);
+            let m = rng.below(2000) as usize;
+            acc.evaluations += 1;
+            match with_source(&e, |s| uns.mutate_memo_index(m, s, 1.0)) {
+                Ok(Some(r)) => {
+                    acc.count("fired_memoindex_unsafe", 1);
+                    if r >= 1000 {
+                        acc.violate(violation(
+                            "C16",
+                            "C16:memoindex:memo_index_unsafe".into(),
+                            format!("memoindex.mutate_memo_index({}) in unsafe mode -> {}: not below 1000", m, r),
+                            json!({"mutator": "memoindex", "unsafe_mode": true, "value": m, "result": r, "entropy": e.to_json(), "rate": 1.0}),
+                        ));
+                    }
+                    acc.max("max_unsafe_memo_index_seen", r as u64);
+                }
+                Ok(None) => {}
+                Err(p) => acc.violate(violation(
+                    "C16",
+                    "C16:panic:memoindex:memo_index_unsafe".into(),
+                    format!("memoindex.mutate_memo_index panicked: {}", p),
+                    json!({"entropy": e.to_json(), "value": m}),
+                )),
+            }
+        },
+        |a, b| a.merge(b),
+    );
+    acc.merge(memo_acc);
+
     // TypeConfusion on snapshots built from real emissions of every opcode + synthetic edge cases
     let n_gen = if thorough { 3000 } else { 400 };
     let tc_acc = par_run(
